@@ -17,7 +17,7 @@ theorem be16_length (w : UInt16) : (be16 w).length = 2 := rfl
     rd16 (UInt8.ofNat (w.toNat / 256)) (UInt8.ofNat (w.toNat % 256)) = w := by
   have h := w.toNat_lt
   apply UInt16.toNat_inj.mp
-  simp [rd16, UInt16.toNat_ofNat', UInt8.toNat_ofNat']
+  simp [rd16, UInt8.toNat_ofNat']
   omega
 
 /-- every pair of bytes is the big-endian form of the word it reads as -/
